@@ -236,9 +236,18 @@ class Generator:
             rng = (o_, c_)
         elif impl.startswith('re:'):
             rng = self.src.impl_block_containing(impl[3:].replace('~', ' '), src_name)
+        elif impl.startswith('macro:'):
+            # a method defined in the body of a `macro_rules!` (an impl template instantiated several times): range = the macro's block;
+            # the fn sits at depth 3 (macro { arm => { impl { fn), `pick` selects among the impl templates of the macro
+            mm = re.search(r'(?m)^macro_rules! ' + re.escape(impl[6:]) + r' \{', self.src.masked)
+            if not mm:
+                raise ExtractError('macro_rules! %s not found in %s' % (impl[6:], self.src.path))
+            o_ = mm.end() - 1
+            rng = (o_, match_close(self.src.masked, o_))
+            macro_depth = 3
         else:
             raise ExtractError('unknown impl kind ' + impl)
-        parts = self.src.fn_parts(src_name, rng, pick=int(spec['pick']) if spec.get('pick') else None)
+        parts = self.src.fn_parts(src_name, rng, want_depth=(3 if impl.startswith('macro:') else None), pick=int(spec['pick']) if spec.get('pick') else None)
         body = parts['body']
         region = spec.get('region')
         if region:
